@@ -29,21 +29,22 @@ func (a *config) MergeSpoc(d deviceconf.Config) deviceconf.Config {
 				errlog.Abort("Must not redefine chain %q of table %q from rawdata",
 					cName, tName)
 			}
-			for _, ru := range bChain.rules {
-				i := 0
-				if ru.append {
-					// Append before last non DROP line.
-					i = len(aChain.rules)
-					for i > 0 {
-						if aChain.rules[i-1].pairs["-j"] == "DROP" {
-							i--
-						} else {
-							break
-						}
-					}
-				}
-				aChain.rules = slices.Insert(aChain.rules, i, ru)
+			// Prepend rules per default.
+			// Rules marked with [APPEND] are added before trailing DROP lines.
+			i := len(aChain.rules)
+			for i > 0 && aChain.rules[i-1].pairs["-j"] == "DROP" {
+				i--
 			}
+			var top, bottom []rule
+			for _, ru := range bChain.rules {
+				if ru.append {
+					bottom = append(bottom, ru)
+				} else {
+					top = append(top, ru)
+				}
+			}
+			aChain.rules = slices.Insert(aChain.rules, i, bottom...)
+			aChain.rules = slices.Insert(aChain.rules, 0, top...)
 		}
 	}
 	return a
